@@ -246,6 +246,18 @@ def P4b(ctx):
         ctx.missing("P4b", fk, "expected the main-thread and the queued-spawn coroutine creation")
         return
     body = fn.body
+    # priming done by the creating function itself: in spawn_thread, handing over the closure (`set_para`) is followed by a resume on
+    # every path to its return
+    sk = "rt::scheduler::spawn_thread"
+    sfn = prog.fn(sk)
+    if sfn is not None:
+        sb_ = sfn.body
+        sets = [b for (b, t, c) in prog.sites(prog.ident(sk)) if prog.callee_key(c).endswith("::set_para")]
+        res_ = set(b for (b, t, c) in prog.sites(prog.ident(sk)) if prog.callee_key(c).endswith("::resume") and "generator::" in prog.callee_key(c))
+        if sets and all(not any(sb_.term(x)["k"] == "return" for x in sb_.reachable(s_, blocked=res_ - {s_})) for s_ in sets):
+            for sb in spawns:
+                ctx.ok("P4b", "%s:spawn@bb%d" % (fk, sb), "spawn_thread primes the coroutine itself (set_para is followed by resume)", [site_str(prog, fk, sb)])
+            return
     for sb in spawns:
         # from the spawn, a resume is passed before the next tick / before returning
         resume_blocks = set(ea.sites_may(inst, "resume"))
